@@ -3,6 +3,7 @@
   preemption step, in terms of `heldOf` (the amount a process holds, = the model's `heldAmount`) and the amount in use.
 -/
 import CimbaModel.Sim.S2PoolInv
+import CimbaModel.Sim.S2PoolFull
 import CimbaModel.Sim.Basic
 
 namespace CimbaModel.Sim
@@ -474,5 +475,123 @@ theorem poolLoop_preempt_ok {w : World} {p : Pid} {pl : Nat} {x : Pool} (hi : Po
     | some r =>
       simp only [hm] at hr
       cases hr
+
+/-- **preempt, one pass that does not return**: the caller has received part of its claim — what was free plus what the
+    victims held — and is suspended with the claim reduced by exactly that: `held + claim` is conserved -/
+theorem poolLoop_preempt_partial {w : World} {p : Pid} {pl : Nat} {x : Pool} (hi : PoolInv w) (hp : p < w.procs.size)
+    (hx : w.pools[pl]? = some x) (rem ini : Nat) (hrem : 0 < rem)
+    (hr : (poolLoop w p pl rem ini true).2 = .blocked) :
+    ∃ w1 rem', poolLoop w p pl rem ini true = block w1 p (.pool pl rem' ini true) ∧ 0 < rem' ∧ rem' ≤ rem ∧
+      heldOf w1 pl p + rem' = heldOf w pl p + rem := by
+  by_cases hav : x.cap - x.inUse ≥ rem
+  · obtain ⟨h1, _, _⟩ := poolLoop_direct hi hp hx rem ini true hav hrem
+    rw [h1] at hr; cases hr
+  · have hv := poolView_of_get hx
+    have h1 : ∃ w1 rem1, (if x.cap - x.inUse > 0 then
+          (poolUpdateRecord (recordPool (setPoolInUse w pl (x.inUse + (x.cap - x.inUse))) pl) pl p (x.cap - x.inUse),
+            rem - (x.cap - x.inUse)) else (w, rem)) = (w1, rem1) ∧ PoolInv w1 ∧ w1.procs.size = w.procs.size ∧ 0 < rem1 ∧
+          heldOf w1 pl p + rem1 = heldOf w pl p + rem := by
+      have vok := (hi.2 pl _ hv).1
+      have hsum : x.inUse = amounts (abs x.holders) := vok.sum
+      have hcap : x.inUse ≤ x.cap := vok.inCap
+      split
+      · rename_i hpos
+        obtain ⟨h2, st3, hsum2, hamt2, _⟩ :=
+          (((PSt.init hi hv).setInUse (x.inUse + (x.cap - x.inUse))).record pl).update hi.1 hp (x.cap - x.inUse) hpos
+        dsimp only [Pool.view] at hsum2 hamt2
+        refine ⟨_, _, rfl, st3.close hi ?_ ?_, st3.size, by omega, ?_⟩
+        · show x.inUse + (x.cap - x.inUse) = amounts (abs h2); omega
+        · show x.inUse + (x.cap - x.inUse) ≤ x.cap; omega
+        · rw [st3.heldOf, (PSt.init hi hv).heldOf]
+          show amountOf (abs h2) (p + 1) + (rem - (x.cap - x.inUse)) = amountOf (abs x.holders) (p + 1) + rem
+          rw [hamt2]; omega
+      · exact ⟨w, rem, rfl, hi, rfl, hrem, rfl⟩
+    obtain ⟨w1, rem1, he1, hi1, hs1, hr1, hh1⟩ := h1
+    have hle1 : rem1 ≤ rem := by
+      split at he1 <;> (injection he1 with _ e; omega)
+    obtain ⟨hi2, hs2, hh2⟩ := poolMug_total (x.holders.count + 1) w1 p pl rem1 hi1 (by rw [hs1]; exact hp) hr1
+    have hpos2 := poolMug_rem_pos (x.holders.count + 1) w1 p pl rem1 hr1
+    have hle2 := poolMug_rem_le (x.holders.count + 1) w1 p pl rem1
+    unfold poolLoop at hr ⊢
+    simp only [hx, hav, if_false, if_true, he1] at hr ⊢
+    cases hm : (poolMug (x.holders.count + 1) w1 p pl rem1).2 with
+    | none => simp only [hm] at hr; cases hr
+    | some r =>
+      simp only [hm]
+      refine ⟨_, r, rfl, hpos2 r hm, by have := hle2 r hm; omega, ?_⟩
+      rw [heldOf_viewSame (ViewSame.of_same (guardWaitEnter_same _ _ _ _))]
+      rw [hm] at hh2
+      simp only [remaining] at hh2
+      omega
+
+/-- `ClaimRun p pl pre rem ini gained sig`: a pool acquire (`pre = false`) or preempt (`pre = true`) as the sequence of its
+    passes, as `AcquireRun` -/
+inductive ClaimRun (p : Pid) (pl : Nat) (pre : Bool) : Nat → Nat → Nat → Int → Prop
+  | last {w : World} {x : Pool} {rem ini : Nat} {sig : Int} {extra : String} (hi : PoolInv w) (hp : p < w.procs.size)
+      (hx : w.pools[pl]? = some x) (h : (poolLoop w p pl rem ini pre).2 = .ret sig extra) :
+      ClaimRun p pl pre rem ini (heldOf (poolLoop w p pl rem ini pre).1 pl p - heldOf w pl p) sig
+  | wait {w w1 : World} {x : Pool} {rem rem' ini m : Nat} {sig : Int} (hi : PoolInv w) (hp : p < w.procs.size)
+      (hx : w.pools[pl]? = some x) (h : poolLoop w p pl rem ini pre = block w1 p (.pool pl rem' ini pre))
+      (rest : ClaimRun p pl pre rem' ini m sig) :
+      ClaimRun p pl pre rem ini (heldOf w1 pl p - heldOf w pl p + m) sig
+  | intr {rem ini : Nat} {sig : Int} (hs : sig ≠ sigSuccess) : ClaimRun p pl pre rem ini 0 sig
+
+theorem block_inv {w1 w2 : World} {p : Pid} {F F' : Frame} (hp : p < w1.procs.size)
+    (h : block w1 p F = block w2 p F') : F = F' ∧ ∀ pl q, heldOf w1 pl q = heldOf w2 pl q := by
+  have h1 : (block w1 p F).1 = (block w2 p F').1 := congrArg Prod.fst h
+  have hs : w2.procs.size = w1.procs.size := by
+    have := congrArg (fun w : World => w.procs.size) h1
+    simpa [block] using this.symm
+  constructor
+  · have hb : ((block w1 p F).1.proc p).blocked = ((block w2 p F').1.proc p).blocked := by rw [h1]
+    rw [block_blocked, block_blocked, if_pos ⟨rfl, hp⟩, if_pos ⟨rfl, by rw [hs]; exact hp⟩] at hb
+    injection hb
+  · intro pl q
+    rw [← heldOf_viewSame (ViewSame.of_fp (block_fp w1 p F) rfl rfl), ← heldOf_viewSame (ViewSame.of_fp (block_fp w2 p F') rfl rfl), h1]
+
+/-- **acquire_ok / preempt_ok for a whole call**: the passes never hand out more than the claim, and a call that returns
+    success has handed out exactly the claim -/
+theorem ClaimRun.exact {p : Pid} {pl : Nat} {pre : Bool} {rem ini m : Nat} {sig : Int}
+    (h : ClaimRun p pl pre rem ini m sig) (hrem : 0 < rem) : m ≤ rem ∧ (sig = sigSuccess → m = rem) := by
+  induction h with
+  | @last w x rem ini sig extra hi hp hx h =>
+    have hh : heldOf (poolLoop w p pl rem ini pre).1 pl p = heldOf w pl p + rem := by
+      cases pre
+      · exact (poolLoop_acquire_ok hi hp hx rem ini hrem h).2.1
+      · exact (poolLoop_preempt_ok hi hp hx rem ini hrem h).2
+    rw [hh]
+    exact ⟨by omega, fun _ => by omega⟩
+  | @wait w w1 x rem rem' ini m sig hi hp hx h rest ih =>
+    have key : 0 < rem' ∧ rem' ≤ rem ∧ heldOf w1 pl p + rem' = heldOf w pl p + rem := by
+      cases pre
+      · by_cases hav : x.cap - x.inUse ≥ rem
+        · obtain ⟨h1, _, _⟩ := poolLoop_direct hi hp hx rem ini false hav hrem
+          rw [h] at h1; cases h1
+        · obtain ⟨w1', hblk, hh, _⟩ := poolLoop_partial hi hp hx rem ini hav
+          rw [h] at hblk
+          have hsz : w1.procs.size = w.procs.size := by
+            have := (poolLoop_fp w p pl rem ini false).2.2.2.2.2.2.2.1
+            rw [h] at this
+            simpa [block] using this
+          obtain ⟨e, hheld⟩ := block_inv (by rw [hsz]; exact hp) hblk
+          injection e with _ e2 _ _
+          rw [hheld pl p, hh, e2]
+          omega
+      · obtain ⟨w1', rem'', hblk, hpos, hle, hh⟩ := poolLoop_preempt_partial hi hp hx rem ini hrem (by rw [h]; rfl)
+        rw [h] at hblk
+        have hsz : w1.procs.size = w.procs.size := by
+          have := (poolLoop_fp w p pl rem ini true).2.2.2.2.2.2.2.1
+          rw [h] at this
+          simpa [block] using this
+        obtain ⟨e, hheld⟩ := block_inv (by rw [hsz]; exact hp) hblk
+        injection e with _ e2 _ _
+        rw [hheld pl p, e2]
+        exact ⟨hpos, hle, hh⟩
+    obtain ⟨k1, k3, k2⟩ := key
+    obtain ⟨e1, e2⟩ := ih k1
+    refine ⟨by omega, fun hs => ?_⟩
+    have := e2 hs
+    omega
+  | intr hs => exact ⟨Nat.zero_le _, fun e => absurd e hs⟩
 
 end CimbaModel.Sim
